@@ -50,8 +50,14 @@ case "$cmd" in
     build 386 || echo "note: the 32-bit (GOARCH=386) variant could not be built; it will be skipped"
     exit 0 ;;
   replay)
-    build default || exit 2
-    exec "$ROOT/bin/vmon" replay "$2" ;;
+    # replays run in the build variant the violation was observed in (recorded in the replay file)
+    b="$(python3 -c "import json,sys;print(json.load(open(sys.argv[1])).get('build','default'))" "$2" 2>/dev/null || echo default)"
+    env_extra=""
+    case "$b" in *+cpuoff) env_extra="GODEBUG=cpu.all=off"; b="${b%+cpuoff}";; esac
+    case "$b" in purego|race|386) ;; *) b=default;; esac
+    build $b || exit 2
+    bin="$ROOT/bin/vmon"; [ "$b" != default ] && bin="$ROOT/bin/vmon-$b"
+    exec env $env_extra "$bin" replay "$2" ;;
   "")
     echo "usage: run_check.sh <ID> <quick|thorough> | build | replay <file>"; exit 2 ;;
 esac
